@@ -106,6 +106,8 @@ def run(ctx):
     h = ctx.compile_harness("c19_watchdog.cc")
     wd = ctx.workdir()
     thorough = ctx.tier == "thorough"
+    if thorough:
+        broken += ctx.leanchecker(["PPLV.Props.C19"])
 
     # -------------------------------------------------------------- replay of one recorded case
     if ctx.replay:
@@ -172,6 +174,8 @@ def run(ctx):
 
     clause_hist = collections.Counter()
     known_hist = collections.Counter()
+    reported = collections.Counter()           # unexplained failures reported as VIOLATION, per clause
+    suppressed = 0
     for name, lst in fails.items():
         lines = cases.get(name, [])
         script = to_script(lines) if not name.startswith("weight") else None
@@ -188,6 +192,11 @@ def run(ctx):
                     rec = r; break
             if rec is not None:
                 known_hist[rec["tags"][0]] += 1
+            elif reported[clause] >= 3 or sum(reported.values()) >= 10:
+                suppressed += 1                  # same clause already reported with 3 inputs
+                continue
+            else:
+                reported[clause] += 1
             ctx.violation(what, replay, found_input=True, record=rec)
 
     # a trace difference alone is a disagreement between model and code, not yet a violation of the
@@ -241,6 +250,8 @@ def run(ctx):
         cases_by_kind=dict(kinds),
         histogram=dict(hist),
         clause_failures=dict(clause_hist),
+        unexplained_failures_reported=dict(reported),
+        unexplained_failures_not_reported_again=suppressed,
         clause_failures_explained_by_known_finding=dict(known_hist),
         driver_summary=summary,
     )
